@@ -190,6 +190,17 @@ def run(ctx):
                                           % (order, n[0] - 1, a1, b1, nn, dev(got, refv)), case=case)
                     D1 = teneva.func_diff_matrix(a1, b1, nn)
                     ctx.check(np.allclose(D1, Ds[0]), 'func_diff_matrix:m1', 'm=1 result differs from the first matrix of the m=3 list', case=case)
+                    # the matrices belong to the caller (boundary rows are typically overwritten in place): whatever is done to
+                    # them, the next request with the same arguments must return the exact matrices again
+                    keep1, keep3 = D1.copy(), [M_.copy() for M_ in Ds]
+                    D1[0, :] = 0.
+                    D1[0, 0] = 1.
+                    for M_ in Ds:
+                        M_ *= -3.
+                    D1b = teneva.func_diff_matrix(a1, b1, nn)
+                    Dsb = teneva.func_diff_matrix(a1, b1, nn, m=3)
+                    okb = dev(D1b, keep1) == 0 and len(Dsb) == 3 and all(dev(x_, y_) == 0 for x_, y_ in zip(Dsb, keep3))
+                    ctx.check(okb, 'func_diff_matrix:again', 'after the caller edited earlier results in place, func_diff_matrix(%g, %g, %d) no longer returns the exact matrices' % (a1, b1, nn), case=case)
                     ctx.case(key=('diff', row['cores'], a1, nn), nontrivial=True)
     if mirror_bad:
         raise tlc.TlcError('numpy chebval / chebder mirror disagrees with TLC on %d cases' % mirror_bad)
